@@ -22,6 +22,7 @@ class Driver:
         self.max_steps = max_steps
         self.deadlock = False
         self.tasks = {}            # name -> task (registered by the harness)
+        self.bursts = set()        # step numbers at which a second gate is opened in the same loop iteration
         self.no_cancel_labels = set()   # a task parked on a gate with one of these labels is not cancelled there
                                         # (the gate is an artificial await: the real in-memory command cannot be interrupted)
 
@@ -58,25 +59,45 @@ class Driver:
         # once the schedule is used up: rotate over the choices (fair: a spinning waiter cannot starve the clock)
         pick = self.schedule.pop(0) % len(choices) if self.schedule else self.steps % len(choices)
         kind, arg = choices[pick]
-        self.trace.append([kind, arg if kind != "time" else round(arg / 0.0625, 3), self.tick()])
+        self.trace.append([kind, arg if kind != "time" else round(arg / 0.0625, 3), self.tick(), len(choices), pick])
         if kind == "go":
             fut, _ = self.gates.pop(arg)
             if not fut.done():
                 fut.set_result(None)
+            if self.steps in self.bursts and self.gates:      # a second task becomes ready in the same iteration
+                names = sorted(self.gates)
+                n2 = names[(self.schedule.pop(0) if self.schedule else 0) % len(names)]
+                self.trace.append(["go+", n2, self.tick(), len(names), names.index(n2)])
+                fut2, _ = self.gates.pop(n2)
+                if not fut2.done():
+                    fut2.set_result(None)
         elif kind == "time":
             vclock.Clock.now += timeout
         else:
             self.cancels_left -= 1
+            self.events.append(["cancel", arg])
             self.tasks[arg].cancel()
 
 
-def run(main_factory, schedule, cancellable=(), max_cancels=0, no_cancel_labels=()):
+class SLoop(vclock.VLoop):
+    task_hook = None
+
+    def create_task(self, coro, **kw):
+        t = super().create_task(coro, **kw)
+        if self.task_hook is not None:
+            self.task_hook(t)
+        return t
+
+
+def run(main_factory, schedule, cancellable=(), max_cancels=0, no_cancel_labels=(), bursts=(), task_hook=None):
     """main_factory(driver) -> coroutine.  Runs it to completion under the driver; returns (result, driver)."""
     drv = Driver(schedule, cancellable, max_cancels)
     drv.no_cancel_labels = set(no_cancel_labels)
+    drv.bursts = set(bursts)
     vclock.install()
     vclock.Clock.now = vclock.BASE
-    loop = vclock.VLoop(on_idle=drv.on_idle)
+    loop = SLoop(on_idle=drv.on_idle)
+    loop.task_hook = task_hook
     drv.loop = loop
     asyncio.set_event_loop(loop)
     loop.set_exception_handler(lambda _l, _c: None)
@@ -120,3 +141,23 @@ def gate_methods(drv, obj, names, only_tasks=None):
                 return await orig(*a, **k)
             return w
         setattr(obj, name, mk(orig, name))
+
+
+def enumerate_schedules(run_fn, max_leaves=20000):
+    """every distinct complete schedule of a program: run_fn(prefix) -> driver (after a full run with that prefix and the
+    default continuation).  Depth-first by first deviation point.  Returns (list of full pick lists, complete?)."""
+    leaves, stack = [], [[]]
+    while stack:
+        if len(leaves) >= max_leaves:
+            return leaves, False
+        p = stack.pop()
+        drv = run_fn(p)
+        main = [t for t in drv.trace if t[0] != "go+"]
+        picks = [t[4] for t in drv.trace]
+        widths = [t[3] for t in drv.trace]
+        leaves.append(picks)
+        for d in range(len(p), len(picks)):
+            for j in range(widths[d]):
+                if j != picks[d]:
+                    stack.append(picks[:d] + [j])
+    return leaves, True
